@@ -115,6 +115,26 @@ func c12Sparsify(data [][]byte, sparse int) {
 func c12BodyS(r *core.Rec, seed int64, d, p, length, g int, odd bool, sparse int) bool {
 	data := c07Data(seed, d, length)
 	c12Sparsify(data, sparse)
+	// sparse == 5: the data shards are consecutive sub-slices of ONE buffer, each with capacity reaching over the shards
+	// behind it (as the slices of a file are when they are cut out of the file's bytes); the buffer must be what it was
+	// after every call
+	var whole, wholeCopy []byte
+	if sparse == 5 {
+		whole = make([]byte, 0, d*length+64)
+		for _, sh := range data {
+			whole = append(whole, sh...)
+		}
+		whole = append(whole, bytes.Repeat([]byte{0xEE}, 64)...)
+		wholeCopy = append([]byte{}, whole...)
+		for i := range data {
+			data[i] = whole[i*length : (i+1)*length]
+		}
+		defer func() {
+			if !bytes.Equal(whole, wholeCopy) {
+				r.Violatef("input-buffer-modified", "d=%d p=%d len=%d g=%d: the buffer the data shards were cut from was written to", d, p, length, g)
+			}
+		}()
+	}
 	ref := c12Code(d, p, 1).GenerateParity(data)
 	if odd {
 		data = c12Displace(data)
@@ -333,7 +353,7 @@ func c12Gen(g *core.Gen) {
 	}
 	// low-entropy shards (zero stretches with non-zero words at the very end / at block ends): every even length to 300
 	// and lengths that are not multiples of 16 beyond, g 1..40
-	for sp := 1; sp <= 4; sp++ {
+	for sp := 1; sp <= 5; sp++ {
 		for l := 4; l <= 300; l += 2 {
 			g.Emit(&c12Case{Kind: "partition", Len: l, D: 3, P: 2, GLo: 1, GHi: 41, Sparse: sp})
 		}
